@@ -108,14 +108,23 @@ package sync
 // the sinks, proved at each call site).
 
 //@ ghost var pendingReads int -- number of reads of the pending set's head
+// shape and content invariant of the pending set, in absolute indices (slicing keeps it): every range is
+// non-nil, short enough, holds consecutive heights from its start, and only verified headers. It is
+// what the only writer that adds headers (ranges.Add: verified(h) is its precondition, a header joins a range
+// only when it is adjacent to the range's head) and headerRange.Remove (proved: still-ok) maintain; that
+// Add maintains it is NOT proved (it needs the separation of the ranges' backing arrays), so the readers
+// assume it under the set's lock (rely, listed as an assumption).
+//@ pure pendingOK(rs) = forall a int @ at(rs.ranges, a) :: off(rs.ranges) <= a && a < off(rs.ranges) + len(rs.ranges) ==> at(rs.ranges, a) != nil && rangeOK(at(rs.ranges, a)) && at(rs.ranges, a).start >= 1 && (forall k int @ at(at(rs.ranges, a).headers, k) :: off(at(rs.ranges, a).headers) <= k && k < off(at(rs.ranges, a).headers) + len(at(rs.ranges, a).headers) ==> verified(at(at(rs.ranges, a).headers, k)))
 //@ func (*ranges).Head(rs)
-//@   trusted
+//@   props C03
+//@   rely after RLock: pendingOK(rs)
 //@   effect pendingReads := old(pendingReads) + 1
-//@   ensures !result.IsZero() ==> verified(result)
+//@   modifies ghost:pendingReads
+//@   ensures [C03] verified-head: !result.IsZero() ==> verified(result)
 
 //@ func (*ranges).head(rs)
 //@   props C07
-//@   requires forall i int :: 0 <= i && i < len(rs.ranges) ==> rs.ranges[i] != nil
+//@   requires len(rs.ranges) > 0 ==> rs.ranges[len(rs.ranges) - 1] != nil
 //@   ensures [C07] empty: len(rs.ranges) == 0 ==> result.IsZero()
 //@   ensures [C07] last-of-last: len(rs.ranges) > 0 ==> result == ite(len(rs.ranges[len(rs.ranges) - 1].headers) == 0, zeroHdr, rs.ranges[len(rs.ranges) - 1].headers[len(rs.ranges[len(rs.ranges) - 1].headers) - 1])
 
@@ -143,12 +152,17 @@ package sync
 //@   ensures [C07] not-above-head-is-dropped: !hd.IsZero() && h.Height() <= hd.Height() ==> len(rs.ranges) == old(len(rs.ranges))
 //@   ensures [C07] grows-by-at-most-one: len(rs.ranges) == old(len(rs.ranges)) || len(rs.ranges) == old(len(rs.ranges)) + 1
 
+// syncStore.Head: the cached head when there is one, otherwise the inner store's head, which is then cached.
+// The cache holds only verified non-zero headers: established by syncStore.Append (requires verified headers)
+// and by this function, assumed at the load (rely: other goroutines only ever store such headers).
 //@ func (*syncStore).Head(s, ctx)
-//@   trusted
-//@   modifies AP_set, AP_val_Hdr, ghost:pendingReads
-//@   ensures result1 == nil ==> !result0.IsZero() && verified(result0)
-//@   ensures result1 == nil ==> apSet(s.head) && apVal(s.head) == result0
-//@   ensures asNonAdj(result1) == nil
+//@   props C03, C19
+//@   rely after Load: apSet(s.head) ==> (!apVal(s.head).IsZero() && verified(apVal(s.head)))
+//@   modifies AP_set, AP_val_Hdr
+//@   ensures [C03] verified-head: result1 == nil ==> !result0.IsZero() && verified(result0)
+//@   ensures [C19] cached: result1 == nil ==> apSet(s.head) && apVal(s.head) == result0
+//@   ensures [C19] cache-wins: old(apSet(s.head)) ==> result1 == nil && result0 == old(apVal(s.head))
+//@   assumes asNonAdj(result1) == nil -- the inner store is another package's code: it cannot return this package's unexported error type (A-foreign-errors)
 
 //@ func (*Syncer).localHead(s, ctx)
 //@   props C03, C15, C19
@@ -226,10 +240,16 @@ package sync
 //@   ensures [C07] still-ok: old(rangeOK(r)) ==> rangeOK(r)
 
 //@ func (*ranges).First(rs)
-//@   trusted
-//@   modifies ranges.ranges, ghost:pendingAdds
-//@   ensures result1 ==> result0 != nil && len(result0.headers) > 0 && rangeOK(result0) && result0.start >= 1
-//@   ensures result1 ==> forall k int :: off(result0.headers) <= k && k < off(result0.headers) + len(result0.headers) ==> verified(at(result0.headers, k))
+//@   props C03, C07
+//@   rely after Lock: pendingOK(rs)
+//@   modifies ranges.ranges
+//@   ensures [C07] non-empty-range: result1 ==> result0 != nil && len(result0.headers) > 0 && rangeOK(result0) && result0.start >= 1
+//@   ensures [C03] verified-range: result1 ==> forall k int @ at(result0.headers, k) :: off(result0.headers) <= k && k < off(result0.headers) + len(result0.headers) ==> verified(at(result0.headers, k))
+//@   ensures [C07] first-of-the-set: result1 ==> len(rs.ranges) > 0 && result0 == rs.ranges[0]
+//@   ensures [C07] none-means-empty: !result1 ==> len(rs.ranges) == 0
+//@ loop 0:
+//@   invariant kept: pendingOK(rs)
+//@   decreases len(rs.ranges)
 
 //@ func (*Syncer).processHeaders(s, ctx, fromHead, to)
 //@   props C07, C03
